@@ -43,13 +43,46 @@ class LiteralTypeHint(TypeHint):
         return False
 
     # ..................{ PRIVATE ~ testers                  }..................
+    def _is_subhint_literal(self, other: 'LiteralTypeHint') -> bool:
+        '''
+        :data:`True` only if each literal object subscripting this literal is
+        also a literal object subscripting the passed literal.
+
+        Note that literal objects are compared by both equality *and* type.
+        :pep:`586` distinguishes literal objects that merely compare equal
+        (e.g., ``Literal[1]`` is neither ``Literal[True]`` nor a subhint of
+        ``Literal[True]``, despite ``1 == True``).
+        '''
+
+        return all(
+            any(
+                type(self_arg) is type(other_arg) and self_arg == other_arg
+                for other_arg in other._args
+            )
+            for self_arg in self._args
+        )
+
+
+    def _is_subhint_branch(self, branch: TypeHint) -> bool:
+
+        # If the passed branch (e.g., of a union) is also a literal, defer to
+        # literal-specific logic. The superclass implementation compares only
+        # the child *HINTS* subscripting both hints, of which literals have none.
+        if isinstance(branch, LiteralTypeHint):
+            return self._is_subhint_literal(branch)
+        # Else, the passed branch is *NOT* also a literal.
+
+        # Defer to the superclass implementation.
+        return super()._is_subhint_branch(branch)
+
+
     def _is_subhint(self, other: TypeHint) -> bool:
 
         # If the passed hint is also a literal, return true only if the set of
         # all child hints subscripting this literal is a subset of the set of
         # all child hints subscripting that literal.
         if isinstance(other, LiteralTypeHint):
-            return all(self_arg in other._args for self_arg in self._args)
+            return self._is_subhint_literal(other)
         # Else, the passed hint is *NOT* also a literal.
 
         # Return true only if either...
